@@ -89,7 +89,7 @@ ASSUMPTIONS = [
 def coqchk(ctx):
     t0 = time.time()
     # the whole development (every property's cone is inside it): independent re-check of all .vo files
-    mods = ["EndToEndModel", "SubsetTermination", "ScopingFacts", "GenCodeChecks", "LexSpecProofs", "LexSpecFacts", "RuntimeLemmas", "DefParserProofs", "CharGenProofs",
+    mods = ["EndToEndModel", "SubsetTermination", "ScopingFacts", "GenCodeChecks", "ProgIso", "GenUtilProofs", "LexSpecProofs", "LexSpecFacts", "RuntimeLemmas", "DefParserProofs", "CharGenProofs",
             "DriverProofs", "CharClassProofs", "ClassAlgProofs", "Instance"]
     r = run(["coqchk", "-silent", "-o", "-Q", "theories", "LexVerif", "-Q", "gen", "LexVerif.Gen"]
             + ["LexVerif.%s" % m for m in mods], cwd=COQ, timeout=3000)
@@ -120,7 +120,9 @@ STAGES = {
     "C04": {"nfa", "dfa", "ctx-count", "tables", "gencode"},
     "C05": {"dfa", "simplified", "templates", "gencode"},
     "C11": {"tables"},
-    "C12": {"nfa", "dfa", "flags", "joined", "simplified", "dispatch", "ruleset-count", "ctx-count", "tables", "gencode"},
+    # C12 is about the expansion itself (terminates, deterministic, output compiles): what the automata and the
+    # generated code *mean* belongs to the other properties and is not reported here
+    "C12": {"ruleset-count", "ctx-count", "tables"},
     "C14": {"gencode"}, "C15": {"gencode"},
 }
 # "gencode": harness/gencode.py translates the token stream the macro produced into the syntax trees of
@@ -130,19 +132,18 @@ STAGES = {
 
 # which certificate fields gate which property (ClosedChecker / NfaSem checkers, proved sound)
 CERT_PROPS = {
-    "C01": {"charsok", "ctxok", "sound", "closed", "shape", "targets", "nranges", "dranges"},
+    "C01": {"progiso", "charsok", "ctxok", "sound", "closed", "shape", "targets", "nranges", "dranges"},
     "C02": {"closed", "shape", "targets", "nranges", "dranges"},
-    "C03": {"charsok", "ctxok", "shape"},
-    "C04": {"charsok", "ctxok", "closed", "shape", "targets", "nranges", "dranges"},
-    "C05": {"charsok", "ctxok", "sound", "closed", "shape"},
-    "C06": {"charsok", "ctxok", "sound", "closed", "shape"},
-    "C07": {"charsok", "ctxok", "sound", "closed", "shape"},
-    "C08": {"charsok", "ctxok", "sound", "closed", "shape"},
-    "C09": {"charsok", "ctxok", "sound", "closed", "shape"},
-    "C10": {"charsok", "ctxok", "sound", "closed", "shape"},
-    "C14": {"charsok", "ctxok", "sound", "closed", "shape"},
-    "C15": {"charsok", "ctxok", "sound", "closed", "shape"},
-    "C12": {"charsok", "ctxok", "sound", "closed", "shape", "targets", "nranges", "dranges"},
+    "C03": {"progiso", "charsok", "ctxok", "shape"},
+    "C04": {"progiso", "charsok", "ctxok", "closed", "shape", "targets", "nranges", "dranges"},
+    "C05": {"progiso", "charsok", "ctxok", "sound", "closed", "shape"},
+    "C06": {"progiso", "charsok", "ctxok", "sound", "closed", "shape"},
+    "C07": {"progiso", "charsok", "ctxok", "sound", "closed", "shape"},
+    "C08": {"progiso", "charsok", "ctxok", "sound", "closed", "shape"},
+    "C09": {"progiso", "charsok", "ctxok", "sound", "closed", "shape"},
+    "C10": {"progiso", "charsok", "ctxok", "sound", "closed", "shape"},
+    "C14": {"progiso", "charsok", "ctxok", "sound", "closed", "shape"},
+    "C15": {"progiso", "charsok", "ctxok", "sound", "closed", "shape"},
 }
 
 
@@ -491,7 +492,7 @@ def check_C01(ctx):
 def check_C02(ctx):
     nd, ni = sizes(ctx, (120, 22), (1200, 40))
     lexer_check(ctx, dict(p_ctx=0.0, p_named=0.0, max_rules=2, max_depth=4, p_builtin=0.1, p_diff=0.12, p_any=0.12,
-                          p_eoi=0.05, p_template=0.0, kinds=['simple']), nd, ni, ["tokens"])
+                          p_eoi=0.0, p_template=0.0, kinds=['simple']), nd, ni, ["tokens"])   # `$` is C05's, not C02's
 
 
 def check_C03(ctx):
